@@ -148,7 +148,8 @@ def _random_walk(draw, hi):
 
 @st.composite
 def _big(draw, shortest):
-    base = draw(G.big_int8_case(shortest=shortest))
+    # up to 127 cells per side the coordinates are stored as int8; 129 / 130 / 150 lie beyond what int8 can hold at all
+    base = draw(G.big_int8_case(sizes=(127, 130, 65, 100, 129, 64, 40, 150, 33), shortest=shortest))
     base["kind"] = draw(st.sampled_from(["solved", "solved", "targeted"]))
     base["seq"] = draw(st.lists(st.sampled_from([list(o) for o in OPTS]), min_size=1, max_size=2))
     if [True, True] not in base["seq"]:
